@@ -87,6 +87,7 @@ where
                         return fail(line_span(input), msg);
                     }
                     let t: Tree<Var>;
+                    let tree_line = line_span(input);
                     (input, (t, tree_max_var)) =
                         terminated(util::tree(true, true), eol)(next_input)?;
 
@@ -94,6 +95,10 @@ where
                     vars.order.clear();
                     vars.order.reserve(tree_max_var.1 + 1);
                     t.flatten_into(&mut vars.order);
+                    if vars.order.is_empty() {
+                        // would otherwise pass for a problem with one variable
+                        return fail(tree_line, "variable order tree must not be empty");
+                    }
                     vars.order_tree = Some(t);
                 } else if let Ok((next_input, ((var_span, var), name))) =
                     util::var_order_record::<E>(next_input)
